@@ -108,6 +108,9 @@ Proof.
   - apply be_decode_lt_64; [exact Hsb|lia].
 Qed.
 
+Lemma firstn_lenN {A} (l : list A) : firstn (N.to_nat (lenN l)) l = l.
+Proof. unfold lenN. rewrite Nat2N.id. apply firstn_all. Qed.
+
 (* ---- readKind / Split ---- *)
 
 Lemma hdr_len_pos k c : k <> KByte -> 1 <= lenN (hdr k c).
@@ -343,12 +346,11 @@ Proof.
   - cbn in Hd. destruct Hh as [Hh _]. destruct (N.eqb_spec c0 0); [contradiction|].
     rewrite <- Hd. reflexivity.
   - destruct (N.ltb_spec 8 (lenN (c0 :: c1 :: c'))); [lia|].
-    unfold read_size. rewrite !lenN_cons in *.
-    destruct (N.ltb_spec (1 + (1 + lenN c')) (1 + (1 + lenN c'))); [lia|].
-    destruct (N.leb_spec 1 (1 + (1 + lenN c'))); [|lia].
-    destruct (N.leb_spec (1 + (1 + lenN c')) 8); [|lia]. cbn [andb].
-    replace (1 + (1 + lenN c')) with (lenN (c0 :: c1 :: c')) by (rewrite !lenN_cons; lia).
-    rewrite <- (app_nil_r (c0 :: c1 :: c')) at 2. rewrite firstn_lenN_app, Hd.
+    assert (Hm : 2 <= lenN (c0 :: c1 :: c')) by (rewrite !lenN_cons; lia).
+    unfold read_size. rewrite firstn_lenN, Hd.
+    destruct (N.ltb_spec (lenN (c0 :: c1 :: c')) (lenN (c0 :: c1 :: c'))); [lia|].
+    destruct (N.leb_spec 1 (lenN (c0 :: c1 :: c'))); [|lia].
+    destruct (N.leb_spec (lenN (c0 :: c1 :: c')) 8); [|lia]. cbn [andb].
     destruct Hh as [Hh _].
     assert (56 <= x).
     { rewrite <- Hd. pose proof (be_decode_pos c0 (c1 :: c') Hh) as P.
@@ -406,7 +408,8 @@ Lemma count_values_f_complete (vs : list (kind * list N)) : forall fuel i,
   count_values_f fuel (flat_map (fun v => chunk (fst v) (snd v)) vs) i = (i + lenN vs, None).
 Proof.
   induction vs as [|[k c] vs IH]; intros fuel i Hok Hf.
-  - destruct fuel; [cbn in Hf; lia|]. cbn. f_equal. rewrite lenN_nil. lia.
+  - destruct fuel; [cbn in Hf; lia|]. change (lenN (@nil (kind * list N))) with 0.
+    cbn. rewrite N.add_0_r. reflexivity.
   - inversion Hok as [|? ? Hk Hvs]; subst. cbn [fst snd] in Hk.
     destruct fuel; [lia|]. cbn [flat_map fst snd count_values_f] in *.
     pose proof (chunk_len_pos k c Hk) as Hp.
@@ -415,7 +418,7 @@ Proof.
     rewrite <- E. unfold chunk at 1. rewrite <- app_assoc, (read_kind_complete k c _ Hk).
     unfold chunk at 1. rewrite <- app_assoc, skipn_chunk.
     rewrite IH; [f_equal; rewrite lenN_cons; lia|exact Hvs|].
-    rewrite app_length in Hf. unfold lenN in Hp. lia.
+    rewrite <- E, app_length in Hf. unfold lenN in Hp. lia.
 Qed.
 
 Lemma count_values_complete (vs : list (kind * list N)) :
@@ -440,7 +443,8 @@ Proof.
     destruct (read_kind_sound _ _ _ _ Hb Erk) as (c & r & E & Hl & -> & Hok).
     rewrite <- Hl, E, skipn_chunk. intros Hc.
     assert (Hrb : bytesb r = true).
-    { rewrite E, !bytesb_app in Hb. repeat (apply andb_true_iff in Hb as [Hb ?]). assumption. }
+    { rewrite E, !bytesb_app in Hb. apply andb_true_iff in Hb as [_ Hb].
+      apply andb_true_iff in Hb as [_ Hb]. exact Hb. }
     pose proof (chunk_len_pos k c Hok) as Hp. unfold chunk in Hp.
     assert (Hrf : (length r < fuel)%nat).
     { rewrite E, !app_length in Hf. rewrite lenN_app in Hp. unfold lenN in Hp. lia. }
@@ -456,39 +460,47 @@ Lemma count_values_sound b n :
   exists vs, b = flat_map (fun v => chunk (fst v) (snd v)) vs /\
              Forall (fun v => chunk_ok (fst v) (snd v)) vs /\ n = lenN vs.
 Proof.
-  intros Hb H. destruct (count_values_f_sound _ b 0 n Hb ltac:(lia) H) as (vs & ? & ? & ?).
-  exists vs. repeat split; try assumption. lia.
+  intros Hb H. unfold count_values in H.
+  destruct (count_values_f_sound (S (length b)) b 0 n Hb (Nat.lt_succ_diag_r _) H) as (vs & ? & ? & ?).
+  exists vs. split; [assumption|]. split; [assumption|]. lia.
 Qed.
 
-Lemma count_values_f_fuel fuel : forall b i,
-  (length b < fuel)%nat -> snd (count_values_f fuel b i) <> Some OutOfFuel.
+Lemma read_size_not_oof t s : read_size t s <> Err OutOfFuel.
 Proof.
-  induction fuel as [|fuel IH]; intros b i Hf; [lia|].
+  unfold read_size. destruct (_ <? _); [discriminate|].
+  destruct (_ <? 56); [discriminate|]. destruct t; [discriminate|].
+  destruct (_ =? _); discriminate.
+Qed.
+
+Lemma read_kind_not_oof b : read_kind b <> Err OutOfFuel.
+Proof.
+  unfold read_kind. destruct b as [|b0 tl]; [discriminate|]. cbv zeta.
+  repeat match goal with
+         | |- context [match read_size ?a ?b with _ => _ end] =>
+             let R := fresh "R" in
+             destruct (read_size a b) eqn:R;
+             [|intros E; inversion E; subst; exact (read_size_not_oof _ _ R)]
+         | |- context [if ?c then _ else _] => destruct c
+         | |- context [match ?l with [] => _ | _ :: _ => _ end] => destruct l
+         end; discriminate.
+Qed.
+
+(* the fuel of CountValues is never exhausted *)
+Lemma count_values_f_fuel fuel : forall b i,
+  bytesb b = true -> (length b < fuel)%nat -> snd (count_values_f fuel b i) <> Some OutOfFuel.
+Proof.
+  induction fuel as [|fuel IH]; intros b i Hb Hf; [lia|].
   cbn [count_values_f]. destruct b as [|b0 tl] eqn:Eb; [cbn; discriminate|].
   rewrite <- Eb in *. destruct (read_kind b) as [[[k ts] cs]|] eqn:Erk.
-  - apply IH. unfold read_kind in Erk. rewrite Eb in Erk |- *.
-    assert (Hpos : 1 <= ts + cs).
-    { destruct (b0 <? 128); [|destruct (b0 <? 184)]; [| |destruct (b0 <? 192); [|destruct (b0 <? 248)]].
-      - destruct (_ <? _) in Erk; inversion Erk; lia.
-      - destruct tl as [|b1 t]; [|destruct (_ && _)]; try discriminate;
-          destruct (_ <? _) in Erk; inversion Erk; lia.
-      - destruct (read_size _ _); [|discriminate]. destruct (_ <? _) in Erk; inversion Erk; lia.
-      - destruct (_ <? _) in Erk; inversion Erk; lia.
-      - destruct (read_size _ _); [|discriminate]. destruct (_ <? _) in Erk; inversion Erk; lia. }
-    rewrite skipn_length. cbn [length] in *. lia.
-  - cbn. intros E; inversion E; subst.
-    unfold read_kind in Erk. rewrite Eb in Erk.
-    assert (Hrs : forall t s, read_size t s <> Err OutOfFuel).
-    { intros t s. unfold read_size. destruct (_ <? _); [discriminate|].
-      destruct (_ <? 56); [discriminate|]. destruct t; [discriminate|].
-      destruct (_ =? _); discriminate. }
-    destruct (b0 <? 128); [|destruct (b0 <? 184)]; [| |destruct (b0 <? 192); [|destruct (b0 <? 248)]].
-    + destruct (_ <? _) in Erk; discriminate.
-    + destruct tl as [|b1 t]; [|destruct (_ && _)]; try discriminate;
-        destruct (_ <? _) in Erk; discriminate.
-    + destruct (read_size tl (b0 - 183)) eqn:R; [destruct (_ <? _) in Erk; discriminate|].
-      inversion Erk; subst. exact (Hrs _ _ R).
-    + destruct (_ <? _) in Erk; discriminate.
-    + destruct (read_size tl (b0 - 247)) eqn:R; [destruct (_ <? _) in Erk; discriminate|].
-      inversion Erk; subst. exact (Hrs _ _ R).
+  - destruct (read_kind_sound _ _ _ _ Hb Erk) as (c & r & E & Hl & -> & Hok).
+    rewrite <- Hl, E, skipn_chunk.
+    pose proof (chunk_len_pos k c Hok) as Hp. unfold chunk in Hp.
+    rewrite E, !bytesb_app in Hb. apply andb_true_iff in Hb as [_ Hb].
+    apply andb_true_iff in Hb as [_ Hb].
+    apply IH; [exact Hb|]. rewrite E, !app_length in Hf. rewrite lenN_app in Hp.
+    unfold lenN in Hp. lia.
+  - cbn. intros E; inversion E; subst. exact (read_kind_not_oof _ Erk).
 Qed.
+
+Lemma count_values_fuel b : bytesb b = true -> snd (count_values b) <> Some OutOfFuel.
+Proof. intros Hb. apply count_values_f_fuel; [exact Hb|lia]. Qed.
